@@ -3,7 +3,9 @@
     Exact arithmetic throughout: rounding and re-association of the floating-point Reduce are outside. *)
 From Coq Require Import ZArith List Lia Field.
 Import ListNotations.
-From PGV Require Import Blocks Sums Diagnostics.
+From Coq Require Import QArith Qround.
+From PGV Require Import Blocks Sums Diagnostics TransposeExec DiagnosticsLink DiagnosticsSlotQ.
+Close Scope Q_scope.
 
 (** (a) 1-D: the local weighted sums over the blocks [bstart k, bstart (k+1)) add up to the global
     weighted sum, for every extent n, process count p and integrand *)
@@ -179,6 +181,115 @@ Theorem c17_slot_no_overwrite : forall t dt s i j, (0 < dt -> 0 < s -> 0 <= i < 
 Proof. exact dg_slot_distinct. Qed.
 Print Assumptions c17_slot_no_overwrite.
 
+(** * The executable model itself (DiagnosticsLink.v): the functions that are extracted and run against /repo.
+    [dg_link_ok c] is the boolean guard the model driver evaluates: dims_order is a permutation of 0..d-1,
+    d >= 1, the grid directions used by the layout are distinct and exist, at most d of them, every process
+    count >= 1. *)
+
+(** (1) what a rank computes - local index ranges, weight lists sliced [start:end], the flat field read through
+    ravel and dims_order - is the fold over the rank's index box (global indices, layout axis order) of
+    integrand(field value) x weight product, times dq dz *)
+Theorem c17_local_is_block_fold : forall k c wc, perm_b (dg_ndims c) (dg_dims c) = true -> 0 < dg_ndims c ->
+  dg_local k c wc = (dg_ndsum (dg_global_ranges c wc) (dg_G k c) * dg_factor2 c)%Z.
+Proof. exact dg_local_block_fold. Qed.
+Print Assumptions c17_local_is_block_fold.
+
+(** (2) end to end: Reduce(SUM) over all ranks of the process grid, in Create_cart order, of the local values
+    = (number of copies of each block) x the serial quadrature computed by the same code on one process - for
+    l2, l1, particle number and kinetic energy alike, any global shape, process grid, permutation dims_order
+    and choice of grid directions; [dg_replication] is the product of the extents of the unused directions
+    (1 for the layouts the collector uses) *)
+Theorem c17_reduced_eq_serial : forall k c, dg_link_ok c = true ->
+  dg_reduced k c = (Z.of_nat (dg_replication c) * dg_serial k c)%Z.
+Proof. exact dg_reduced_eq_serial. Qed.
+Print Assumptions c17_reduced_eq_serial.
+
+(** (4) any permutation of the axes: generic statement and its use - the serial quadrature is the canonical
+    nested sum over (r, theta, z [, v]) with no reference to dims_order, two layouts of the same field have
+    the same serial value, and the reduction over the ranks of any layout equals replication x the serial
+    value of any other layout *)
+Theorem c17_axis_permutation : forall (dims : list nat) (d : nat) (R : nat -> nat * nat) (H : list nat -> Z),
+  perm_b d dims = true ->
+  dg_ndsum (map R dims) (fun g => H (map (fun x => nth (Handler.index_of dims x) g 0) (seq 0 d)))
+  = dg_ndsum (map R (seq 0 d)) H.
+Proof. exact (dg_ndfold_perm Z.add 0%Z Z.add_assoc Z.add_comm Z.add_0_l). Qed.
+Print Assumptions c17_axis_permutation.
+
+Theorem c17_serial_canonical : forall k c, perm_b (dg_ndims c) (dg_dims c) = true -> 0 < dg_ndims c ->
+  dg_serial k c = (dg_ndsum (dg_canon_full c) (dg_Gc k c) * dg_factor2 c)%Z.
+Proof. exact dg_serial_canonical. Qed.
+Print Assumptions c17_serial_canonical.
+
+Theorem c17_reduced_any_layout : forall k c c', dg_link_ok c = true ->
+  dg_N c = dg_N c' -> dg_etas c = dg_etas c' -> dg_re c = dg_re c' -> dg_im c = dg_im c' ->
+  dg_ndims c = dg_ndims c' -> perm_b (dg_ndims c') (dg_dims c') = true ->
+  dg_reduced k c = (Z.of_nat (dg_replication c) * dg_serial k c')%Z.
+Proof. exact dg_reduced_any_layout. Qed.
+Print Assumptions c17_reduced_any_layout.
+
+(** (3) minima / maxima on the executable functions ([mx = false]: MIN with +inf, [true]: MAX with -inf):
+    the collector's Reduce of the local extrema is the extremum of the global field (replication does not
+    matter), i.e. a bound of every cell of the global array that is attained *)
+Theorem c17_collector_ext_eq_serial : forall mx c, dg_link_ok c = true ->
+  dg_collector_ext mx c = dg_local_ext mx (dg_serial_cfg c) (map (fun _ => 0) (dg_world c)).
+Proof. exact dg_collector_ext_eq_serial. Qed.
+Print Assumptions c17_collector_ext_eq_serial.
+
+Theorem c17_collector_min_is_global_min : forall c, dg_link_ok c = true ->
+  dg_is_ext Z.le (dg_inbox (dg_canon_full c)) (fun idx => Some (dg_zn (dg_re c) (NdIndex.ravel (dg_N c) idx)))
+    (dg_collector_ext false c).
+Proof. exact dg_collector_min_spec. Qed.
+Print Assumptions c17_collector_min_is_global_min.
+
+Theorem c17_collector_max_is_global_max : forall c, dg_link_ok c = true ->
+  dg_is_ext Z.ge (dg_inbox (dg_canon_full c)) (fun idx => Some (dg_zn (dg_re c) (NdIndex.ravel (dg_N c) idx)))
+    (dg_collector_ext true c).
+Proof. exact dg_collector_max_spec. Qed.
+Print Assumptions c17_collector_max_is_global_max.
+
+(** getMin / getMax with a drawing rank and fixed indices: the reduce over all ranks of what they hand in
+    (neutral element unless the rank owns every fixed index and is not empty) is what the same function gives
+    on one process, and is the extremum over exactly the cells of the global index space matching the fixed
+    values *)
+Theorem c17_reduced_ext_eq_serial : forall mx c pairs, dg_link_ok c = true ->
+  dg_reduced_ext mx c pairs = dg_local_slice_ext mx (dg_serial_cfg c) pairs (map (fun _ => 0) (dg_world c))
+  /\ dg_reduced_ext mx c pairs
+     = dg_slice_fold (dg_ext mx) None (dg_full c) (dg_fixs c pairs) (fun g => Some (dg_cell (dg_re c) c g)).
+Proof. exact dg_reduced_ext_eq_serial. Qed.
+Print Assumptions c17_reduced_ext_eq_serial.
+
+Theorem c17_reduced_ext_is_slice_extremum : forall c pairs, dg_link_ok c = true ->
+  dg_is_ext Z.le (dg_inbox (dg_full c))
+    (fun g => if dg_matches (dg_fixs c pairs) g then Some (dg_cell (dg_re c) c g) else None) (dg_reduced_ext false c pairs)
+  /\ dg_is_ext Z.ge (dg_inbox (dg_full c))
+    (fun g => if dg_matches (dg_fixs c pairs) g then Some (dg_cell (dg_re c) c g) else None) (dg_reduced_ext true c pairs).
+Proof. exact dg_reduced_ext_spec. Qed.
+Print Assumptions c17_reduced_ext_is_slice_extremum.
+
+(** the same in canonical coordinates (r, theta, z, v), with no reference to the layout: the extremum over the
+    cells of the global array whose coordinate along every given axis equals the given fixValue *)
+Theorem c17_getminmax_canonical : forall c pairs, dg_link_ok c = true ->
+  dg_is_ext Z.le (dg_inbox (dg_canon_full c))
+    (fun idx => if dg_matches (dg_cfixs c pairs) idx then Some (dg_zn (dg_re c) (NdIndex.ravel (dg_N c) idx)) else None)
+    (dg_reduced_ext false c pairs)
+  /\ dg_is_ext Z.ge (dg_inbox (dg_canon_full c))
+    (fun idx => if dg_matches (dg_cfixs c pairs) idx then Some (dg_zn (dg_re c) (NdIndex.ravel (dg_N c) idx)) else None)
+    (dg_reduced_ext true c pairs).
+Proof. exact dg_reduced_ext_canonical_spec. Qed.
+Print Assumptions c17_getminmax_canonical.
+
+(** (e') float arguments of collect(), read as the exact rationals they are (Python's float t // dt is the
+    floor of the exact quotient): a time inside step k goes to slot k mod saveStep - in particular t = k dt
+    exactly.  The hypothesis is needed: see [c17_example_slot_tenth]. *)
+Theorem c17_slot_q_of_step : forall (t dt : Q) (k s : Z), (0 < dt)%Q -> (inject_Z k * dt <= t)%Q -> (t < inject_Z (k + 1) * dt)%Q ->
+  dg_slot_q t dt s = (k mod s)%Z.
+Proof. exact dg_slot_q_of_step. Qed.
+Print Assumptions c17_slot_q_of_step.
+
+Theorem c17_slot_q_exact : forall (dt : Q) (k s : Z), (0 < dt)%Q -> dg_slot_q (inject_Z k * dt) dt s = (k mod s)%Z.
+Proof. exact dg_slot_q_exact. Qed.
+Print Assumptions c17_slot_q_exact.
+
 (** non-vacuity: 7 points on 3 processes, blocks [0,2) [2,4) [4,7); weights 1,2,..; a 2x3 grid; a slice;
     slots of steps 0..4 with saveStep 3 *)
 Example c17_example_blocks : map (bstart 7 3) [0; 1; 2; 3] = [0; 2; 4; 7]
@@ -209,4 +320,17 @@ Example c17_example_model :
               dg_re := map Z.of_nat (seq 1 36); dg_im := repeat 0%Z 36 |} in
   dg_wf c = true /\ dg_all DgN c = [1368; 11880]%Z /\ dg_reduced DgN c = 13248%Z /\ dg_serial DgN c = 13248%Z
   /\ dg_collector_ext false c = Some 1%Z /\ dg_reduced_ext true c [(0, 0)] = Some 18%Z.
+Proof. vm_compute. repeat split. Qed.
+
+(** dt = 0.1 as a double is larger than 1/10: the step at t = 0.5 (five steps) lands in slot 4, not 5 *)
+Example c17_example_slot_tenth : dg_slot_q (1 # 2) (3602879701896397 # 36028797018963968) 6 = 4%Z.
+Proof. vm_compute. reflexivity. Qed.
+
+(** the end-to-end theorem is not vacuous: a 3-D layout using only the second direction of a 3 x 2 grid *)
+Example c17_example_link :
+  let c := {| dg_N := [3; 3; 4]; dg_world := [3; 2]; dg_sel := [1]; dg_dims := [2; 1; 0];
+              dg_etas := [[1; 2; 4]; [0; 1; 2]; [0; 2; 4; 6]]%Z;
+              dg_re := map Z.of_nat (seq 1 36); dg_im := map Z.of_nat (seq 5 36) |} in
+  dg_wf c = true /\ dg_link_ok c = true /\ dg_replication c = 3 /\ dg_serial DgL2 c = 541560%Z
+  /\ dg_reduced DgL2 c = 1624680%Z /\ dg_collector_ext true c = Some 36%Z.
 Proof. vm_compute. repeat split. Qed.
